@@ -527,6 +527,14 @@ int AsmContext::link()
 
     if (symbol == nullptr) { break; }
 
+    // A source without a CPU directive is assembled as MSP430 but never
+    // went through set_cpu(): there is no link function to call.
+    if (link_function == nullptr)
+    {
+      printf("Error: This platform doesn't support linking.\n");
+      return -1;
+    }
+
     if (symbols.append(symbol, address) != 0) { return -1; }
 
     uint8_t *code;
